@@ -188,11 +188,14 @@ def splitOnByte (d : UInt8) : Bytes → List Bytes
       | [] => [[c]]
       | h :: t => (c :: h) :: t
 
+/-- a leading `+` removed -/
+def stripPlus : Bytes → Bytes
+  | 43 :: r => r
+  | s => s
+
 /-- `str::parse::<u64>`: optional `+`, at least one digit, no overflow -/
 def parseU64 (s : Bytes) : Option Nat :=
-  let ds := match s with
-    | 43 :: r => r
-    | _ => s
+  let ds := stripPlus s
   if ds = [] then none
   else match digitsVal ds 0 with
     | some v => if v < u64Mod then some v else none
